@@ -228,6 +228,11 @@ def gen_slow(variant):
     lines += ["create %s %s" % (hx(b"/r/z"), hx(b"v2")), "rev", "sync", "drain w1"]
     if variant != "zero":
         lines += ["drain w2"]
+        # the dropped watcher's client goes away only now (its context ends: a second DeleteWatcher of a subscriber that is
+        # no longer registered): the hub must stay usable - the healthy watcher keeps receiving, a new watch registers
+        lines += ["cancel w1", "create %s %s" % (hx(b"/r/zz"), hx(b"v3")), "rev", "sync", "drain w2",
+                  "startw c3 w3 %s 0" % hx(b"/r/"), "join c3",
+                  "create %s %s" % (hx(b"/r/zzz"), hx(b"v4")), "rev", "sync", "drain w2", "drain w3"]
     return core.Case("backend", lines, {"kind": "slow", "variant": variant, "quiescent": True}, model_suite="watch")
 
 
